@@ -42,6 +42,11 @@ theorem u64_of_range {x : Int} (h0 : 0 ≤ x) (h1 : x < 18446744073709551616) : 
 theorem i64_of_range {x : Int} (h0 : -9223372036854775808 ≤ x) (h1 : x < 9223372036854775808) :
     i64 x = x := by unfold i64; omega
 
+theorem u64_natCast {n : Nat} (h : n < 18446744073709551616) : u64 (n : Int) = (n : Int) := by
+  unfold u64; omega
+theorem i64_natCast {n : Nat} (h : n < 9223372036854775808) : i64 (n : Int) = (n : Int) := by
+  unfold i64; omega
+
 /-! `x | tag` when the bits do not overlap: the three cases `varintPut` uses -/
 theorem lor_64 {x : Int} (h0 : 0 ≤ x) (h1 : x < 64) : lor x 64 = x + 64 := by
   have h : ∀ a : Fin 64, a.val ||| 64 = a.val + 64 := by decide
